@@ -501,6 +501,9 @@ func (db *SingleBucketBackend) CreateBucket(name string) error {
 // DeleteBucket cannot be implemented by this backend. See MultiBucketBackend if you
 // need a backend that supports it.
 func (db *SingleBucketBackend) DeleteBucket(name string) error {
+	if name != db.name {
+		return gofakes3.BucketNotFound(name)
+	}
 	return gofakes3.ErrNotImplemented
 }
 
